@@ -19,6 +19,7 @@ EXPLANATION = (
     "detect_bad_channels_cbin takes the mode across batches (axis 1). Detection quality on recordings is NOT decided."
     ' (as built) row and donor selectors are evaluated on the finite label domain: the repaired rows are exactly labels {1, 2}; the donors with zero weight are exactly labels {1, 2} (good and outside-brain channels stay donors); both the per-channel loop and a vectorised weight matrix (donors along axis 1) are understood.'
     ' (DS as built) module-level dict caches are followed like lru_cache: a row view of a cached decay matrix must be copied before it is zeroed / thresholded.'
+    ' (D3 as built) for the matrix form the guard against a zero row sum must wrap the normalising sum itself.'
 )
 ASSUMPTIONS = [
     "np.exp(...) > 0; a vector divided by its positive sum sums to one (model table)",
